@@ -116,6 +116,13 @@ def files_for(fc, rng):
         return ['/srv/app/pkg%d/module_%d.py' % (i % 7, i) for i in range(300)]
     if fc == 'Markup':
         return ['/srv/app/<zq9x onzq9x="1">.py', '/srv/"quoted"&amp;.py', '/srv/{tmpl}{#x}.py']
+    if fc == 'SiteFiles':
+        import os as _os
+        import ast as _ast
+        import werkzeug as _wz
+        import clastic as _cl
+        return ['/srv/app/main.py', _os.__file__, _ast.__file__, _wz.__file__, _cl.__file__,
+                _os.path.join(_os.path.dirname(_cl.__file__), 'route.py')]
     if fc == 'NonAscii':
         return [u'/srv/caf\xe9/☃.py', u'/srv/日本/x.py']
     raise ValueError(fc)
